@@ -518,16 +518,16 @@ func (n *node) stateDump() string {
 func (n *node) handshake(c uint64) bool {
 	select {
 	case <-n.e.hook.req:
-	case <-time.After(10 * time.Second):
+	case <-time.After(60 * time.Second):
 		return false
 	}
 	n.f.VerifPlantSentinel(c)
 	select {
 	case n.e.hook.ack <- struct{}{}:
-	case <-time.After(10 * time.Second):
+	case <-time.After(60 * time.Second):
 		return false
 	}
-	return n.f.VerifAwaitTrim(n.e.ctx, c, 10*time.Second)
+	return n.f.VerifAwaitTrim(n.e.ctx, c, 60*time.Second)
 }
 
 func (n *node) start(kind string) {
